@@ -25,6 +25,10 @@ CLAIMS = {
                      "only lowers it, from an arbitrary symbolic state for all parameters",
                 design_ref="5/C07"),
 }
+CLAIMS["C02"] = dict(text="bounded symbolic model checking: every gate decomposition in ops.py (X, Z, P, CX, CZ, S2, MZ, Fourier and the native "
+                    "D/S/R/BS), with free parameters bound to symbolic reals and evaluated by the real par_evaluate/lambdify path, compiled by "
+                    "the real Compiler.decompose and executed on the real Gaussian backend from an ARBITRARY symbolic state, equals the documented "
+                    "transformation for all parameter values, both dagger flags and several target orders", design_ref="5/C02")
 NA_DEFAULT = "check not built yet in this session (plan: DESIGN.md section 5)"
 NA = {}
 
